@@ -69,6 +69,8 @@ type World struct {
 	start      time.Time
 
 	held         map[string]int
+	Batch        bool // batch release (C19)
+	batch2       int  // batches that released >= 2 clients
 	PermuteMerge bool // permute the version list at every open (hook H2)
 	PermuteMaps  bool // permute former map iterations (hook H3)
 	Jitter       bool // advance the clock by seeded amounts between events
@@ -144,6 +146,8 @@ func NewWorld() *World {
 }
 
 func (w *World) Probe(name string) { w.Stats.Probes[name]++ }
+
+func (w *World) Batches2() int { return w.batch2 }
 
 func (w *World) Fail(class, format string, args ...interface{}) *Violation {
 	v := &Violation{Class: class, Detail: fmt.Sprintf(format, args...)}
@@ -263,6 +267,32 @@ func (w *World) Run() {
 		}
 		if w.Jitter && w.choose(4) == 1 { // 0 is the bland decision: no clock movement
 			time.Sleep(jitterSteps[w.choose(len(jitterSteps))])
+			continue
+		}
+		if w.Batch {
+			// C19: release one parked request of SEVERAL clients together, so that their client-side code
+			// between two store calls runs truly in parallel (the race detector needs real concurrency).
+			// The store is still served by this goroutine only, in canonical order.
+			var sel []*Request
+			seen := map[string]bool{}
+			for _, r := range pend {
+				if seen[r.H.Client] {
+					continue
+				}
+				seen[r.H.Client] = true
+				if w.choose(4) != 0 {
+					sel = append(sel, r)
+				}
+			}
+			if len(sel) == 0 {
+				sel = append(sel, pend[0])
+			}
+			if len(sel) >= 2 {
+				w.batch2++
+			}
+			for _, r := range sel {
+				w.deliver(r, w.faultFor(r))
+			}
 			continue
 		}
 		r := pend[w.pick(pend)]
